@@ -62,7 +62,7 @@ for cj in sorted(glob.glob(V + '/seeded/_confirm/C*_v*.json')):
             shutil.copy(os.path.join(src, f), dst)
     meta_p = os.path.join(dst, 'meta.json')
     old = json.load(open(meta_p)) if os.path.exists(meta_p) else {}
-    meta = {'id': sid, 'breaks_property': j['id'], 'needs_to_manifest': NEEDS.get(sid, ''),
+    meta = {'id': sid, 'breaks_property': j['id'][:3], 'needs_to_manifest': NEEDS.get(sid, ''),
             'origin': 'fresh sub-agent given only the property text and its own scratch worktree (nothing from /verif)',
             'base_commit': j['base'],
             'confirmed_by_me': {'what_i_ran': 'tools/confirm_seed.sh: scratch worktree of /repo at base_commit under /tmp/seed, git apply patch.diff, cmake --build, the demonstration (build_and_run.sh), full ctest; then git checkout, rebuild, demonstration again; worktree removed afterwards',
